@@ -5,6 +5,7 @@ import (
 	"fmt"
 	"os"
 	"runtime"
+	"strings"
 	"sync"
 	"time"
 
@@ -45,7 +46,7 @@ func RunWorker(shard, of int, seed int64, thorough bool, budget time.Duration, p
 		if si%of != shard {
 			continue
 		}
-		sc := Build(insts, sp, thorough)
+		sc := Build(insts, sp, thorough, true)
 		res.Scenarios++
 		// (1) complete lattice exploration with the read-only state cache
 		// (three-thread lattices are explored to the preemption bound only)
@@ -93,12 +94,21 @@ func RunWorker(shard, of int, seed int64, thorough bool, budget time.Duration, p
 		for _, s := range st.StepsPerThread {
 			total += s
 		}
-		limit := 170
-		if thorough {
-			limit = 420
+		// the number of schedules grows with steps^bound: bound 2 up to 170 steps
+		// (quick) / 420 steps (thorough), bound 3 up to 120 steps (thorough)
+		pb2 := 0
+		switch {
+		case thorough && total <= 120:
+			pb2 = 3
+		case thorough && total <= 420:
+			pb2 = 2
+		case !thorough && total <= 170:
+			pb2 = 2
 		}
-		if total <= limit && useCache {
-			st2, viol, err := sched.Explore(sc, false, pb, deadline, 400000)
+		if pb2 > 0 && useCache {
+			// on the shared instance that the solo runs have warmed
+			warm := Build(insts, sp, thorough, false)
+			st2, viol, err := sched.Explore(warm, false, pb2, deadline, 400000)
 			res.BoundedRuns += st2.Runs
 			res.Steps += st2.Steps
 			if err != nil {
@@ -125,7 +135,7 @@ func RunWorker(shard, of int, seed int64, thorough bool, budget time.Duration, p
 func ReplaySchedule(seed int64, thorough bool, v *sched.Violation) ([]string, []string, error) {
 	insts := Instances(seed, thorough)
 	for _, sp := range Specs(insts, thorough) {
-		sc := Build(insts, sp, thorough)
+		sc := Build(insts, sp, thorough, !strings.HasSuffix(v.Scenario, " (warm)"))
 		if sc.Name == v.Scenario {
 			r, err := sched.Replay(sc, v.Schedule, 400000)
 			return r, sc.Solo, err
@@ -157,7 +167,7 @@ func RunRace(seed int64, thorough bool, budget time.Duration) *RaceResult {
 		if time.Now().After(deadline) {
 			break
 		}
-		sc := Build(insts, sp, thorough)
+		sc := Build(insts, sp, thorough, true)
 		res.Scenarios++
 		for _, g := range res.Goroutines {
 			for rep := 0; rep < reps; rep++ {
